@@ -1355,4 +1355,160 @@ theorem continueAfter_inv (g : Graph) (hsym : EdgeSym g) (w n : Nat) (phase : Ph
     | suspend => exact runLoop_inv g hsym w fuel s1 _ ho' hp' hw' (fun h0 => by omega)
     | exit => exact runLoop_inv g hsym w fuel s1 _ ho' hp' hw' (fun h0 => by omega)
 
+/-! ## the second half of `run_test_node`, the scheduler step, reachability -/
+
+theorem reportOutcome_frame (g : Graph) (s : State) (w n : Nat) (phase : Phase) (uid : String) (wait : Nat) (out : Outcome) :
+    (reportOutcome g s w n phase uid wait out).1.nodes = s.nodes ∧
+    (reportOutcome g s w n phase uid wait out).1.workers = s.workers ∧
+    (reportOutcome g s w n phase uid wait out).1.hidden = s.hidden := by
+  unfold reportOutcome
+  dsimp only
+  split
+  · split
+    · split <;> exact ⟨rfl, rfl, rfl⟩
+    · exact ⟨rfl, rfl, rfl⟩
+  · exact ⟨rfl, rfl, rfl⟩
+
+/-- a change of book-keeping fields only -/
+structure BookOnly (s s' : State) : Prop where
+  workersLen : s'.workers.length = s.workers.length
+  hidden : s'.hidden = s.hidden
+  wd : ∀ v, (s'.wd v).path = (s.wd v).path ∧ (s'.wd v).pc = (s.wd v).pc
+  started : ∀ i, (s'.nd i).started = (s.nd i).started
+
+theorem bookOnly_tail (s sj : State) (hn : sj.nodes = s.nodes) (hw : sj.workers = s.workers) (hh : sj.hidden = s.hidden)
+    (w n : Nat) (fW : WorkerD → WorkerD) (hfW : ∀ d, (fW d).path = d.path ∧ (fW d).pc = d.pc)
+    (fN : NodeD → NodeD) (hfN : ∀ d, (fN d).started = d.started) (c : Bool) :
+    BookOnly s (if c = true then sj.setWd w fW else sj.setNd n fN) := by
+  have hwd : ∀ v, sj.wd v = s.wd v := by intro v; unfold State.wd; rw [hw]
+  have hnd : ∀ i, sj.nd i = s.nd i := by intro i; unfold State.nd; rw [hn]
+  cases c
+  · simp only [Bool.false_eq_true, if_false]
+    refine ⟨by show sj.workers.length = _; rw [hw], hh, fun v => by rw [wd_setNd, hwd]; exact ⟨rfl, rfl⟩,
+      fun i => ?_⟩
+    rw [nd_setNd_proj (·.started) sj n fN hfN i, hnd]
+  · simp only [if_true]
+    refine ⟨by simp [State.setWd, hw], hh, fun v => ?_, fun i => by show (sj.nd i).started = _; rw [hnd]⟩
+    rw [wd_setWd_proj (·.path) sj w fW (fun d => (hfW d).1) v, wd_setWd_proj (·.pc) sj w fW (fun d => (hfW d).2) v, hwd]
+    exact ⟨rfl, rfl⟩
+
+theorem recordResult_frame (s : State) (w n : Nat) (phase : Phase) (name uid : String) (tag : Nat) (st0 : String) (dur : Nat) :
+    BookOnly s (recordResult s w n phase name uid tag st0 dur).1 := by
+  unfold recordResult
+  dsimp only
+  have hX : ∀ (c : Bool) (jr : List (String × String × String × Nat)),
+      (if c = true then { s with jobResults := jr } else s).nodes = s.nodes ∧
+      (if c = true then { s with jobResults := jr } else s).workers = s.workers ∧
+      (if c = true then { s with jobResults := jr } else s).hidden = s.hidden := by
+    intro c jr; cases c <;> exact ⟨rfl, rfl, rfl⟩
+  refine bookOnly_tail s _ ?_ ?_ ?_ w n _ ?_ _ ?_ _
+  · exact (hX _ _).1
+  · exact (hX _ _).2.1
+  · exact (hX _ _).2.2
+  · intro d; exact ⟨rfl, rfl⟩
+  · intro d; rfl
+
+theorem PInv.bookOnly {g : Graph} {s s' : State} (h : PInv g s) (b : BookOnly s s') : PInv g s' :=
+  h.transfer b.workersLen (fun x hx => by rw [← b.hidden]; exact hx)
+    (fun v => ⟨(b.wd v).1, by rw [(b.wd v).2], fun hx => by rw [(b.wd v).2]; exact hx, fun hx => by rw [(b.wd v).2]; exact hx⟩)
+    (fun i => Or.inl (b.started i))
+
+theorem resumeTest_inv (g : Graph) (hsym : EdgeSym g) (s : State) (w n : Nat) (phase : Phase) (dir : Dir) (uid : String)
+    (tag wait : Nat) (out : Outcome) (fuel : Nat) (hf : 0 < fuel) (h : PInv g s) (hpcw : (s.wd w).pc.node? = some n) :
+    PInv g (resumeTest g s w n phase dir uid tag wait out fuel).1 := by
+  rw [resumeTest_eq]
+  obtain ⟨r1, r2, r3⟩ := reportOutcome_frame g s w n phase uid wait out
+  have bA : BookOnly s (reportOutcome g s w n phase uid wait out).1 :=
+    ⟨by rw [r2], r3, fun v => by unfold State.wd; rw [r2]; exact ⟨rfl, rfl⟩, fun i => by unfold State.nd; rw [r1]⟩
+  have hA := h.bookOnly bA
+  have hpcA : ((reportOutcome g s w n phase uid wait out).1.wd w).pc.node? = some n := by rw [(bA.wd w).2]; exact hpcw
+  generalize (reportOutcome g s w n phase uid wait out).1 = sa at hA hpcA bA
+  have waitCase : ∀ k, PInv g (sa.setWd w (fun d => { d with pc := .test n phase dir uid tag k })) := by
+    intro k
+    obtain ⟨_, _, hlen⟩ := hA.testOwn w n hpcA
+    have hw : w < sa.workers.length := lt_of_path_ne_nil sa w (by intro h0; rw [h0] at hlen; simp at hlen)
+    have e : Eff w none sa (sa.setWd w (fun d => { d with pc := .test n phase dir uid tag k })) := eff_setWd w none sa _
+    refine hA.transfer e.workersLen (fun x hx => by rw [← e.hidden]; exact hx) (fun v => ?_) (fun i => Or.inl rfl)
+    by_cases hvw : v = w
+    · subst hvw
+      rw [wd_setWd_eq sa v _ hw]
+      refine ⟨rfl, by rw [hpcA]; rfl, fun hx => ?_, fun hx => ?_⟩
+      · rw [hx] at hpcA; cases hpcA
+      · rw [hx] at hpcA; cases hpcA
+    · rw [e.others v hvw]; exact ⟨rfl, rfl, fun hx => hx, fun hx => hx⟩
+  split
+  · next st0 dur _ =>
+    have bB := recordResult_frame sa w n phase (if (phase == Phase.pre) = true then (s.wd w).preName else (g.node n).name) uid tag st0 dur
+    exact continueAfter_inv g hsym w n phase dir fuel hf _ _ _ (hA.bookOnly bB) (by rw [(bB.wd w).2]; exact hpcA)
+  · split
+    · exact waitCase _
+    · split
+      · exact waitCase _
+      · exact continueAfter_inv g hsym w n phase dir fuel hf _ _ _ hA hpcA
+
+/-- one scheduler step of a real worker with fuel keeps the invariant -/
+theorem resume_inv (g : Graph) (hsym : EdgeSym g) (s : State) (w : Nat) (out : Outcome) (fuel : Nat) (hf : 0 < fuel)
+    (hw : w < g.workers.length) (h : PInv g s) : PInv g (resume g s w out fuel).1 := by
+  have hws : w < s.workers.length := by rw [h.wlen]; exact hw
+  have loopCase : (s.wd w).pc.node? = none → (s.wd w).pc ≠ .failed → (s.wd w).pc ≠ .done → PInv g (runLoop g w fuel s []).1 := by
+    intro h1 h2 h3
+    refine runLoop_inv g hsym w fuel s [] (h.toO h1 h2) ?_ hws (fun h0 => by omega)
+    rcases h.path w hws with h' | h'
+    · exact absurd h'.2 h3
+    · exact h'
+  unfold resume
+  split
+  · next heq => exact loopCase (by rw [heq]; rfl) (by rw [heq]; simp) (by rw [heq]; simp)
+  · next heq => exact loopCase (by rw [heq]; rfl) (by rw [heq]; simp) (by rw [heq]; simp)
+  · next n phase dir uid tag wait heq =>
+    exact resumeTest_inv g hsym s w n phase dir uid tag wait out fuel hf h (by rw [heq]; rfl)
+  · exact h
+  · exact h
+
+theorem PInv.init (g : Graph) (ncls : Nat) (store : List (String × List (String × String))) (hidden : List Nat) :
+    PInv g (initState g ncls store hidden) := by
+  have hnd : ∀ i, ((initState g ncls store hidden).nd i).started = none := by
+    intro i
+    unfold initState State.nd
+    simp only [List.getD_eq_getElem?_getD, List.getElem?_map]
+    cases g.nodes[i]? <;> rfl
+  have hwd : ∀ v, v < (initState g ncls store hidden).workers.length →
+      (initState g ncls store hidden).wd v = { path := [g.root] } := by
+    intro v hv
+    unfold initState at hv
+    unfold initState State.wd
+    simp only [List.length_map] at hv
+    simp only [List.getD_eq_getElem?_getD, List.getElem?_map, List.getElem?_eq_getElem hv]
+    rfl
+  have hpc : ∀ v, ((initState g ncls store hidden).wd v).pc.node? = none := by
+    intro v
+    by_cases hv : v < (initState g ncls store hidden).workers.length
+    · rw [hwd v hv]; rfl
+    · unfold State.wd
+      rw [List.getD_eq_getElem?_getD, List.getElem?_eq_none (by omega)]; rfl
+  refine ⟨by simp [initState], fun v hv => ?_, fun n v hs => ?_, fun n v hs => ?_, fun v n hn => ?_⟩
+  · right; rw [hwd v hv]; exact .root
+  · rw [hnd] at hs; cases hs
+  · rw [hnd] at hs; cases hs
+  · rw [hpc] at hn; cases hn
+
+/-- the states the scheduler can produce by steps of real workers with fuel (with fuel `0` a step of the model stops
+before the loop resets the pc: an artefact of the driver's bound, excluded here) -/
+inductive ReachableF (g : Graph) (ncls : Nat) (store : List (String × List (String × String))) : State → Prop
+  | init (hidden : List Nat) : ReachableF g ncls store (initState g ncls store hidden)
+  | step (s : State) (w : Nat) (out : Outcome) (fuel : Nat) :
+      ReachableF g ncls store s → w < g.workers.length → 0 < fuel → ReachableF g ncls store (resume g s w out fuel).1
+
+theorem ReachableF.reachable {g : Graph} {ncls : Nat} {store : List (String × List (String × String))} {s : State}
+    (h : ReachableF g ncls store s) : Reachable g ncls store s := by
+  induction h with
+  | init hidden => exact .init hidden
+  | step s w out fuel _ _ _ ih => exact .step s w out fuel ih
+
+theorem ReachableF.pinv {g : Graph} (hsym : EdgeSym g) {ncls : Nat} {store : List (String × List (String × String))} {s : State}
+    (h : ReachableF g ncls store s) : PInv g s := by
+  induction h with
+  | init hidden => exact PInv.init g ncls store hidden
+  | step s w out fuel _ hw hf ih => exact resume_inv g hsym s w out fuel hf hw ih
+
 end I2N.Trav
